@@ -121,13 +121,15 @@ OnRecvAuth(e) ==
 
 OnWrite(e) ==
   LET X  == e.p
-      r  == WriteOp(rank, X, sess[X], e.size)
+      r  == WriteOp(rank, X, sess[X], e.size, e.fail)     \* e.fail: which sc.conn.Write the pipe failed late (0 = none)
       fs == FramesJ(e.frames)
-      s1 == [sess[X] EXCEPT !.sendNonce = e.sendNonce, !.sentLen = @ + e.n, !.nframes = @ + Len(fs)]
+      s1 == [sess[X] EXCEPT !.sendNonce = e.sendNonce, !.sentLen = @ + e.sealed, !.nframes = @ + Len(fs),
+                            !.wfaults = IF e.fail > 0 THEN @ + 1 ELSE @]
       o1 == [out EXCEPT ![X] = @ \o fs]
   IN [Base EXCEPT !.sess[X] = s1, !.out = o1,
         !.d = D(fs # r.out, "Write: sealed frames differ from spec")
-              \cup D(e.n # e.size \/ e.err # "none", "Write: short write or error")
+              \cup D(e.n # r.n \/ e.err # r.err, "Write: (n, err) differs from spec")
+              \cup D(r.s.sentLen # s1.sentLen, "Write: bytes sealed differ from spec")
               \cup D(r.s.sendNonce # e.sendNonce, "Write: sendNonce differs from spec"),
         !.v = NonceViol(o1, X, Len(out[X]) + 1)]
 
